@@ -196,6 +196,38 @@ def commitTxs (db : DB) (height reward : Nat) (trusted : Bool) (txs : List Tx) :
   if reward + sin < sout then throw .outGtIn
   pure { deled := st.deled, undo := st.undo, addList := addListOf height st.blUnsp }
 
+
+-- ------------------------------------------------------------------------------------------ undo data, stated outright
+
+/-- the undo record's outputs: exactly the outputs that were spent (`urec.Outs[vout] = copy`), `none` elsewhere -/
+def maskOuts : List (Option Out) → List Bool → List (Option Out)
+  | [], _ => []
+  | _ :: os, [] => none :: maskOuts os []
+  | o :: os, b :: bs => (if b then o else none) :: maskOuts os bs
+
+/-- the undo record `commitTxs` builds for one entry of the delete list: the record of `u` with exactly the
+    spent outputs kept -/
+def undoRecOf (u : DB) (p : Nat × List Bool) : Rec :=
+  match u.get p.1 with
+  | some r => { r with outs := maskOuts r.outs p.2 }
+  | none => { txid := p.1, height := 0, coinbase := false, outs := [] }
+
+/-- `undoData u blk` in terms of the delete list -/
+def undoOf (u : DB) (deled : List (Nat × List Bool)) : List Rec := deled.map (undoRecOf u)
+
+def nodupB : List Nat → Bool
+  | [] => true
+  | x :: xs => !xs.contains x && nodupB xs
+
+/-- executable form of `ValidChanges` (Proofs/C06Utxo): run by the oracle on the changes of every block the model
+    connects, so that the hypothesis of `undo_commit` is checked on each history of the correspondence run -/
+def validChangesB (u : DB) (txids : List Nat) (ch : Changes) : Bool :=
+  nodupB (ch.deled.map (·.1)) &&
+  ch.deled.all (fun p => (u.get p.1).isSome) &&
+  decide (ch.undo = undoOf u ch.deled) &&
+  txids.all (fun t => (u.get t).isNone) &&
+  ch.addList.all (fun r => txids.contains r.txid)
+
 -- ------------------------------------------------------------------------------------------ abstraction
 
 structure Coin where
